@@ -70,6 +70,8 @@ SCRIPTS = {
                       ["Edit", 1, [], ["set", "b", typed(0)]]],
     "lock-registry-deepcopy": [["NewSession", "A"], ["OpenSp", 0, typed({"d": [7]})], ["Init", 0, False],
                                ["DeepCopy", 0], ["Edit", 1, [], ["del", "d"]], ["Edit", 0, [], ["del", "d"]]],
+    "lazy-handle-gone": [["NewSession", "A"], ["OpenSp", 0, typed({"a": 0})], ["Init", 0, False], ["NewSession", "A"],
+                         ["OpenId", 1, "9bfd29df07674bc4aa960cf661b5acd2"], ["Remove", 0], ["Init", 1, False]],
     "lifecycle-clean": [["NewSession", "A"], ["NewSession", "B"], ["OpenSp", 0, typed({"a": 0, "c": [1, 2]})],
                         ["Init", 0, False], ["DocSet", 0, "p", typed([1, {"z": None}])],
                         ["WriteFile", 0, ["sub", "x.bin"], "00ff10"], ["Sp", 0], ["Copy", 0],
@@ -281,6 +283,8 @@ def random_ops(desc, W):
                 yield ["Pickle", h]
             if len(W.handles) > before:
                 new_group(before)
+                if h in shared:          # the deep copy owns a copy of the cell with all its _jobs
+                    shared.add(before)
             if len(W.sessions) > ns:
                 sess_root.append(os.path.relpath(W.sessions[-1].path, W.root))
         elif r < 0.90:
